@@ -9,6 +9,7 @@ import sys
 from .. import cell, scen, world
 from ..explore import product
 from ..ref import indexes as R5
+from urllib.parse import quote
 
 PID = 'C13'
 LEVEL = 'exploration'
@@ -20,12 +21,12 @@ LEVEL_TEXT = ('every reply string of the alphabet is fed to the real trash-resto
               'exit status must be non-zero; scoping is checked on all subsets of prefix-related locations')
 LEVEL_NOTE = 'trusted: R5 (reference grammar); tokens that only Python int() accepts (" 1", "+1") are don\'t-care; exit status of valid duplicate selections is don\'t-care'
 RULE = ('(a) replies: all strings of length 0..3 (thorough 0..4) over {0,1,2,3,9,-,",",space,+,a} plus {99999999999, 0-99999999999, 3-1, 1-2-3, '
-        'arabic-indic 3, 0,0, 1-2,2} x list length {1,4} x sort {date,path}; (b) subsets (<=3) of {/a/foo,/a/foobar,/a/foo/x,/a,/b/foo,/foo,/a/foobar/y,/a/foo-bar/z/w} x '
+        'arabic-indic 3, 0,0, 1-2,2} x list length {1,4} x sort {date,path}; (b) subsets (<=3) of {/a/foo,/a/foobar,/a/foo/x,/a,/b/foo,/foo,/a/foobar/y,/a/foo-bar/z/w,/a/fo%6F/q (a literal percent escape)} x '
         'scope {/a/foo,/a/fo,/a,/,/a/foo/,foo,.,..,none}; non-trivial = listing printed and reply read; distinct = (R5 class, list length, outcome) and '
         '(scope, subset size, outcome)')
 ALPHA = ['0', '1', '2', '3', '9', '-', ',', ' ', '+', 'a']
 EXTRA = ['-3-1', '-1-0', '0,-2-0', '-0', '1--2', '99999999999', '0-99999999999', '3-1', '1-2-3', '٣', '0,0', '1-2,2', '0-3', '3,2,1,0', '0-0']
-LOCS = ['/a/foo', '/a/foobar', '/a/foo/x', '/a', '/b/foo', '/foo', '/a/foobar/y', '/a/foo-bar/z/w']
+LOCS = ['/a/foo', '/a/foobar', '/a/foo/x', '/a', '/b/foo', '/foo', '/a/foobar/y', '/a/foo-bar/z/w', '/a/fo%6F/q']
 SCOPES = ['/a/foo', '/a/fo', '/a', '/', '/a/foo/', 'foo', '.', '..', 'none']
 TD = scen.HOME_TRASH
 
@@ -38,7 +39,7 @@ def replies(tier):
 
 
 def dimensions(tier):
-    return {'replies': len(replies(tier)), 'list_length': 2, 'sort': 3, 'location_subsets': 92, 'scopes': len(SCOPES)}
+    return {'replies': len(replies(tier)), 'list_length': 2, 'sort': 3, 'location_subsets': 129, 'scopes': len(SCOPES)}
 
 
 def cases(tier):
@@ -56,15 +57,16 @@ def cases(tier):
 
 
 # entries for part (a): date order is the reverse of path order, so printed index != any fixed order
-ENTS = [('e0', '/home/u/w/d', '2024-01-01T00:00:00'), ('e1', '/home/u/w/c', '2024-01-02T00:00:00'),
-        ('e2', '/home/u/w/b', '2024-01-03T00:00:00'), ('e3', '/home/u/w/a', '2024-01-04T00:00:00')]
+# (one info file is hidden, one location contains a literal percent escape)
+ENTS = [('e0', '/home/u/w/d', '2024-01-01T00:00:00'), ('.e1', '/home/u/w/.c', '2024-01-02T00:00:00'),
+        ('e2', '/home/u/w/b%41', '2024-01-03T00:00:00'), ('e3', '/home/u/w/a', '2024-01-04T00:00:00')]
 
 
 def run_a(c):
     W = scen.base_world(cwd='/home/u/w')
     ents = ENTS[:c['n']]
     for nm, loc, d in ents:
-        scen.add_trashed(W, TD, nm, loc, d, payload='file', tag=nm)
+        scen.add_trashed(W, TD, nm, quote(loc, '/'), d, payload='file', tag=nm)
     with cell.Sandbox(W.spec()) as sb:
         before = sb.snapshot()
         r = sb.run(['trash-restore', '--sort', c['sort']], cwd='/home/u/w', stdin=c['reply'] + '\n')
@@ -116,7 +118,7 @@ def run_b(c):
     for i, loc in enumerate(c['locs']):
         d = '2024-02-%02dT00:00:00' % (20 - 3 * LOCS.index(loc))
         dates[loc] = d.replace('T', ' ')
-        scen.add_trashed(W, TD, 's%d' % i, loc, d, payload='file', tag=loc)
+        scen.add_trashed(W, TD, ('s%d', '.s%d')[i % 2] % i, quote(loc, '/'), d, payload='file', tag=loc)
     sc = c['scope']
     cwd = '/a/foo' if sc == '..' else '/a'
     argv = ['trash-restore', '--sort', c['sort']] + ([] if sc == 'none' else [sc])
